@@ -18,7 +18,7 @@ def parseY? (s : String) : Option YDesc :=
     | [k] => (k, some 0)
     | _ => ("", none)
   let kind : Option YKind := match k with
-    | "ok" => some .ok | "dupidx" => some .dupidx | "unsorted" => some .unsorted | "empty" => some .empty
+    | "ok" => some .ok | "dupidx" => some .dupidx | "gapped" => some .gapped | "unsorted" => some .unsorted | "empty" => some .empty
     | "frame1" => some .frame1 | "frame2" => some .frame2 | "array" => some .array | "array2d" => some .array2d
     | "list" => some .list | "none" => some .none | "floatidx" => some .floatidx | _ => none
   match kind, n with
@@ -27,7 +27,8 @@ def parseY? (s : String) : Option YDesc :=
 
 def parseX? : String → Option XKind
   | "none" => some .none | "ok" => some .ok | "shifted" => some .shifted | "shorter" => some .shorter
-  | "unsorted" => some .unsorted | "array" => some .array | _ => none
+  | "unsorted" => some .unsorted | "array" => some .array | "interior" => some .interior
+  | "first" => some .first | "last" => some .last | "longer" => some .longer | _ => none
 
 def parseIntLike? (s : String) : Option IntLike :=
   if s == "none" then some .none
@@ -101,7 +102,7 @@ def handle (toks : List String) : String :=
             | _ => .unknown
           let sciOk := ["infer", "tabular-regressor", "time-series-regressor"].contains (← get kv "scitype")
           pure (reduceEntry (← parseY? (← get kv "y")) (← parseX? (← get kv "X")) (← parseFh? (← get kv "fh")) st
-            (← parseIntLike? (← get kv "wl")) sciOk)
+            (← parseIntLike? (← get kv "wl")) (← parseIntLike? (← get kv "step")) sciOk)
       | "composite" => do
           let k : CompKind ← match (← get kv "kind") with
             | "ensemble" => some .ensemble | "pipeline" => some .pipeline | "multiplexer" => some .multiplexer
